@@ -3,7 +3,7 @@
    every control call is   Call(srv, m, sig) -> isValidRequest -> [handler: Dep* / Change] -> Reply.
 
      Call(srv, m, sig, auth)  sig  = how the request was signed: none | wrongkey | keymismatch | badsig |
-                                     emptysig | badbody | ownkey | valid | valid2
+                                     emptysig | garbage | badbody | ownkey | valid | valid2 | replay
                               auth = GROUND TRUTH: the request carries a valid signature, over its body, of a
                                      configured administrator key (for the inner ring the server's own key is
                                      white-listed by construction of ir/server.New)
@@ -22,7 +22,10 @@ EXTENDS Integers, Sequences, FiniteSets, TLC
 CONSTANT Strict
 
 Servers == {"node", "ir"}
-SigClasses == {"none", "wrongkey", "keymismatch", "badsig", "emptysig", "badbody", "ownkey", "valid", "valid2"}
+SigClasses == {"none", "wrongkey", "keymismatch", "badsig", "emptysig", "garbage", "badbody", "ownkey", "valid", "valid2", "replay"}
+\* "replay": the administrator's key with a signature that was valid for an EARLIER request of the same server instance;
+\* it authorises the present request iff it covers exactly the same bytes (the signature covers the body only) - the
+\* harness computes that (auth), the spec cannot derive it from the class name
 \* ground truth used in the exhaustive run (the harness computes the same for the recorded calls)
 Authorised(srv, sig) == sig \in {"valid", "valid2"} \/ (sig = "ownkey" /\ srv = "ir")
 
@@ -52,7 +55,8 @@ Step(e) == CASE e.ev = "Call"   -> Call(e)
              [] e.ev = "Change" -> Touch(e)
              [] e.ev = "Reply"  -> Reply(e)
 
-CallEvents == {[ev |-> "Call", srv |-> s, m |-> "any", sig |-> c, auth |-> Authorised(s, c)] : s \in Servers, c \in SigClasses}
+CallEvents == {[ev |-> "Call", srv |-> s, m |-> "any", sig |-> c, auth |-> Authorised(s, c)] : s \in Servers, c \in SigClasses \ {"replay"}}
+              \cup {[ev |-> "Call", srv |-> s, m |-> "any", sig |-> "replay", auth |-> a] : s \in Servers, a \in BOOLEAN}
 RunEvents == [ev : {"Dep"}, name : {"dep"}] \cup {[ev |-> "Change"]}
              \cup [ev : {"Reply"}, kind : {"ok", "denied", "error"}, resp : BOOLEAN]
 Next == \/ pc = "idle" /\ \E e \in CallEvents : Step(e)
@@ -63,5 +67,5 @@ Spec == Init /\ [][Next]_vars
 C32_NoSideEffectUnlessAuthorised == touched => auth
 C32_RejectedUnlessAuthorised == (pc = "done" /\ ~auth) => (kind # "ok" /\ ~resp)
 \* the ground truth of the recorded call agrees with the spec's table
-GroundTruthConsistent == pc # "idle" => (auth = Authorised(srv, sig))
+GroundTruthConsistent == (pc # "idle" /\ sig # "replay") => (auth = Authorised(srv, sig))
 =============================================================================
